@@ -53,6 +53,13 @@ def opStoreOps (j : Json) : R Json := do
     let r := runLru cap { cache := [], inner := {} } ops
     pure (Json.mkObj [("ok", .arr (r.map (fun x => outJson x.1)).toArray),
                       ("sizes", .arr (r.map (fun x => Json.num x.2)).toArray)])
+  | "local" =>
+    let (_, outs) := runOps LocalSt.step {} ops
+    pure (Json.mkObj [("ok", .arr (outs.map outJson).toArray)])
+  | "local_lru" =>
+    let cap ← fldNat j "cap"
+    let (_, outs) := runOps (Lru.step cap LocalSt.step) { cache := [], inner := {} } ops
+    pure (Json.mkObj [("ok", .arr (outs.map outJson).toArray)])
   | _ => .error s!"bad store kind {kind}"
 
 /-- {"op":"cacheopt","v": null | true | false | int} -/
@@ -66,5 +73,12 @@ def opCacheOpt (j : Json) : R Json := do
       | none => .error "bad int"
     | _ => .error "bad cache option"
   pure (Json.mkObj [("ok", match decodeCacheObjects o with | some n => .str (toString n) | none => .null)])
+
+/-- {"op":"loc","path":p}: the location of a DDS path below the data directory -/
+def opLoc (j : Json) : R Json := do
+  let p ← fldStr j "path"
+  match localLoc p with
+  | .ok l => pure (Json.mkObj [("ok", .arr (l.map Json.str).toArray)])
+  | .error _ => pure (Json.mkObj [("err", .str "STORE_PATH_NOT_SUPPORTED")])
 
 end Drv
